@@ -86,7 +86,7 @@ def run_items(items, job):
     R = PL.Result()
     for it in items:
         key, doc0 = PL.item_doc(it)
-        idx = int(key.split(":")[1]) if key[0] == "Z" else PL.mix(key) & 0xFFFF
+        idx = PL.item_index(it, key)
         doc, vname = variant(doc0, idx)
         R.evals += 1
         if doc.strip() == "":
